@@ -69,8 +69,8 @@ pub fn run(ctx: &Ctx) {
     ctx.assume("hash primitives sha2::Sha256 / sha3::Shake256 are trusted");
     ctx.assume("for hashes other than SHA-256/32 the model pins the library's current construction (type codes 1..4 / 5..9, zero-padded 55-byte derivation blocks)");
     ctx.assume("randomizer C is the hash-sigs style PRNG value with j=0xfffd over the signing leaf; for upper levels derived from the child's (seed, I) as the library does");
-    let budget = ctx.tier.pick(1_500_000u64, 30_000_000u64);
-    let cases = ctx.tier.pick(800u32, 12_000u32);
+    let budget = ctx.tier.pick(1_500_000u64, 24_000_000u64);
+    let cases = ctx.tier.pick(800u32, 8_000u32);
     ctx.random(
         "byte_exact",
         &|| gen::sign_case(8, gen::HEIGHTS_STD, budget),
